@@ -198,6 +198,56 @@ func crashBusyPlan(r *rand.Rand) spec.Plan {
 	return p
 }
 
+// crashBypassPlan: a scope whose bypass checks pass, with something after it (a later block, post or deferred checks
+// of the plan): recovery has to carry "bypassed" across the crash.
+func crashBypassPlan(r *rand.Rand) spec.Plan {
+	p := spec.Plan{Name: "p0"}
+	grp := func(ok bool, n int) *spec.Checks {
+		c := &spec.Checks{DelayUS: 300 + r.Intn(500)}
+		for i := 0; i < n; i++ {
+			c.Actions = append(c.Actions, spec.Action{Steps: step(ok, 200+r.Intn(900)), Retries: r.Intn(2)})
+		}
+		return c
+	}
+	mkBlock := func(bypassed bool) spec.Block {
+		blk := spec.Block{Conc: 1 + r.Intn(2), Tol: 0}
+		for si := 0; si < 1+r.Intn(2); si++ {
+			blk.Seqs = append(blk.Seqs, spec.Seq{Actions: []spec.Action{{Steps: step(true, 300+r.Intn(600))}}})
+		}
+		if bypassed {
+			blk.Bypass = grp(true, 1+r.Intn(2))
+			if r.Intn(2) == 0 {
+				blk.Pre = grp(true, 1)
+			}
+			if r.Intn(2) == 0 {
+				blk.Deferred = grp(true, 1)
+			}
+		}
+		return blk
+	}
+	switch r.Intn(3) {
+	case 0: // first block bypassed, a block after it
+		p.Blocks = []spec.Block{mkBlock(true), mkBlock(false)}
+	case 1: // second block bypassed, plan-level groups after it
+		p.Blocks = []spec.Block{mkBlock(false), mkBlock(true)}
+		p.Post = grp(true, 1)
+	case 2: // both
+		p.Blocks = []spec.Block{mkBlock(true), mkBlock(true), mkBlock(false)}
+	}
+	if r.Intn(2) == 0 {
+		p.Deferred = grp(true, 1)
+	}
+	p.AssignTags()
+	return p
+}
+
+func bypassCases(tier string) int {
+	if tier == "thorough" {
+		return 60
+	}
+	return 2
+}
+
 // busyCases: how many of the replay cases (the last ones) use crashBusyPlan.
 func busyCases(tier string) int {
 	if tier == "thorough" {
@@ -210,7 +260,10 @@ func busyCases(tier string) int {
 // thorough enumerates the whole box and then random plans.
 func crashPlanOf(prop string, seed int, tier string, idx int) (spec.Plan, string) {
 	r := gen.Rand(seed, "crash", idx) // same plans for C09 and C10
-	if idx >= replayCases(tier)-busyCases(tier) {
+	if idx >= replayCases(tier)-bypassCases(tier) {
+		return crashBypassPlan(r), "bypassed block with something after it"
+	}
+	if idx >= replayCases(tier)-bypassCases(tier)-busyCases(tier) {
 		return crashBusyPlan(r), "failure while sequences are executing"
 	}
 	if tier == "thorough" {
@@ -345,16 +398,29 @@ func c09Oracle(ps *spec.Plan, sk *spec.PlanView, t *oracle.Trace) []ev.Violation
 	for i := range sk.Objs {
 		byID[sk.Objs[i].ID] = &sk.Objs[i]
 	}
+	// (the same holds for what the recovering process itself made durable: a block it stored as Completed is finished)
+	finished := map[string]int{}
+	for id, o := range byID {
+		if isTerminal(o.Status) {
+			finished[id] = o.Status
+		}
+	}
 	for _, w := range t.Writes {
 		o := byID[w.ObjID]
-		if o == nil || w.Status != spec.Running || !isTerminal(o.Status) {
-			continue
-		}
-		if o.Kind == "checks" || (o.Kind == "action" && !strings.Contains(o.Addr, ".S")) {
+		if o == nil || o.Kind == "checks" || (o.Kind == "action" && !strings.Contains(o.Addr, ".S")) {
 			continue // check groups are re-run by design
 		}
-		add("finished-"+o.Kind+"-rerun", "written-running,"+stName(o.Status), "%s %s was durably %s at the crash, yet the recovering process wrote it as Running again", o.Kind, o.Addr, stName(o.Status))
-		break
+		if st, was := finished[w.ObjID]; was && w.Status == spec.Running {
+			when := "at the crash"
+			if !isTerminal(o.Status) {
+				when = "by an earlier write of the recovering process"
+			}
+			add("finished-"+o.Kind+"-rerun", "written-running,"+stName(st), "%s %s was durably %s %s, yet the recovering process wrote it as Running again", o.Kind, o.Addr, stName(st), when)
+			break
+		}
+		if isTerminal(w.Status) {
+			finished[w.ObjID] = w.Status
+		}
 	}
 	for bi := range ps.Blocks {
 		b := &ps.Blocks[bi]
@@ -787,9 +853,9 @@ func c10Run(c *Ctx, idx int) CaseResult {
 // replay cases first, then real-kill cases
 func replayCases(tier string) int {
 	if tier == "thorough" {
-		return crashBox + 300 + busyCases(tier)
+		return crashBox + 300 + busyCases(tier) + bypassCases(tier)
 	}
-	return 18 + busyCases(tier)
+	return 18 + busyCases(tier) + bypassCases(tier)
 }
 
 func killCases(tier string) int {
@@ -816,7 +882,7 @@ func secondOneIn(tier string) int {
 }
 
 func init() {
-	crashRule := "case i = one plan and EVERY prefix k of its committed write sequence (captured with sqlite.WithCapture during an uninterrupted run, replayed into a fresh in-memory store, then a normal Workstream recovers); for a PRNG share of the crash points (quick 1/5, thorough 1/2) the writes of the recovery run are stepped through one by one and a second recovery is run from every durable state not seen before for that plan (second crash); quick: 12 PRNG samples of the bounded box + 6 random plans + 4 plans in which a failure (late continuous-check failure of the block or the plan, fast failing sequence) becomes durable while sibling sequences are executing (thorough: 120 of those); thorough: the whole box (1272 shapes blocks<=2 x sequences<=2 x actions<=2 x outcome masks x tolerance{0,1} x concurrency{1,2}, plus 486 = every subset x pass/fail of the five check groups at plan and block level) + 300 random plans; plugin outcomes are a function of the action alone; cross-validation of the crash model by real kills (quick 8, thorough 200 cases): a process running a random plan on a FILE-backed store SIGKILLs itself immediately before/after its PRNG-chosen k-th write, a second process opens the directory, snapshots, recovers and reports, same oracles; distinct by plan spec"
+	crashRule := "case i = one plan and EVERY prefix k of its committed write sequence (captured with sqlite.WithCapture during an uninterrupted run, replayed into a fresh in-memory store, then a normal Workstream recovers); for a PRNG share of the crash points (quick 1/5, thorough 1/2) the writes of the recovery run are stepped through one by one and a second recovery is run from every durable state not seen before for that plan (second crash); quick: 12 PRNG samples of the bounded box + 6 random plans + 4 plans in which a failure (late continuous-check failure of the block or the plan, fast failing sequence) becomes durable while sibling sequences are executing (thorough: 120 of those) + 2 plans with a bypassed block that has something after it (thorough: 60); thorough: the whole box (1272 shapes blocks<=2 x sequences<=2 x actions<=2 x outcome masks x tolerance{0,1} x concurrency{1,2}, plus 486 = every subset x pass/fail of the five check groups at plan and block level) + 300 random plans; plugin outcomes are a function of the action alone; cross-validation of the crash model by real kills (quick 8, thorough 200 cases): a process running a random plan on a FILE-backed store SIGKILLs itself immediately before/after its PRNG-chosen k-th write, a second process opens the directory, snapshots, recovers and reports, same oracles; distinct by plan spec"
 	register(&Prop{
 		ID: "C09", Level: "fault_enumeration", Batch: 1, PerCaseTimeout: 1200 * time.Second,
 		Rule: crashRule + "; non-trivial = the plan has at least one crash point with a durable action result", Cases: crashCases,
